@@ -167,6 +167,9 @@ def run(env, rep):
                                     if s2 is st:
                                         v = it.eval_rvalue(S, st["rv"], Place(st["place"]))
                                         ok = isinstance(v, tuple) and v[0] == "agg" and v[1] == "core::option::Option" and v[2] == 1 and is_param_load(v[3][0])
+                                        if not ok and isinstance(v, tuple) and v[0] == "agg" and v[1] == "core::option::Option" and v[2] == 1:
+                                            # stored right where the message is matched: the size field of a WindowAcknowledgement
+                                            ok = "direct" if contains(v[3][0], lambda x: isinstance(x, tuple) and x[0] in ("proj", "ld") and "WindowAcknowledgement" in str(x)) else False
                                         break
                                     it.transfer_stmt(S, s2)
                             ww.append((b.pretty, ok, b.key))
@@ -185,6 +188,8 @@ def run(env, rep):
         # and those functions are called only with the size of a WindowAcknowledgement message
         prov = True
         for fnp, ok, key in ww:
+            if ok == "direct":
+                continue
             for ck in prog.callers.get(key, ()):
                 cb = prog.bodies[ck]
                 for bi, t in cb.calls():
